@@ -85,7 +85,13 @@ class Differ:
 
         Returns:  N/A
         """
-        if isinstance(data, CommentedMap):
+        if isinstance(data, (CommentedMap, CommentedSeq, CommentedSet)
+            ) and len(data) < 1:
+            # An empty container has no children to delete but is itself
+            # being replaced
+            self._diffs.append(
+                DiffEntry(DiffActions.DELETE, path, data, None))
+        elif isinstance(data, CommentedMap):
             lhs_iteration = -1
             for key, val in data.items():
                 lhs_iteration += 1
@@ -126,7 +132,12 @@ class Differ:
 
         Returns:  N/A
         """
-        if isinstance(data, CommentedMap):
+        if isinstance(data, (CommentedMap, CommentedSeq, CommentedSet)
+            ) and len(data) < 1:
+            # An empty container has no children to add but is itself new
+            self._diffs.append(
+                DiffEntry(DiffActions.ADD, path, None, data))
+        elif isinstance(data, CommentedMap):
             rhs_iteration = -1
             for key, val in data.items():
                 rhs_iteration += 1
